@@ -14,8 +14,8 @@ RULE = ("twin-data oracle over (scene x state x configuration): scenes as in C11
         "dof/tendon frictionloss, joint/tendon limits, condim 1/3/4/6; heaps of free bodies with per-geom friction, margin/gap, adhesion; "
         "corpus models), random ctrl/qfrc_applied/xfrc_applied; configuration = {Newton, CG} with tolerance 0 and 200 iterations x "
         "{pyramidal, elliptic} x {dense, sparse} x islands on/off x impratio x {Euler, implicit, implicitfast} x eulerdamp/diagexact. "
-        "mj_forward on d1; the harness itself decides convergence (|M qacc - qfrc_smooth - qfrc_constraint| <= 1e-9 of the summed magnitudes "
-        "and solver_niter < iterations); the integration state and qacc are copied into a fresh d2, mj_inverse(d2), and qfrc_inverse is compared "
+        "mj_forward on d1; the harness itself decides convergence (|M qacc - qfrc_smooth - qfrc_constraint| <= 1e-9 of the summed magnitudes; "
+        "with tolerance 0 the solvers never stop early, so solver_niter carries no information); the integration state and qacc are copied into a fresh d2, mj_inverse(d2), and qfrc_inverse is compared "
         "with qfrc_applied + qfrc_actuator + sum_b J_b' xfrc_applied_b where J_b is the COM Jacobian of an independent numpy kinematics "
         "model (vf/ref/rbd.py); efc_force of d2 is compared with d1; mj_compareFwdInv on d1 must report discrepancies below tolerance and "
         "restore the forward results; then d1 is advanced by mj_Euler / mj_implicit, (v+ - v)/h is given to mj_inverse on a fresh d3 with "
@@ -400,13 +400,16 @@ def cases(ctx, ngen, npile, ncorpus, nstate, nconf):
 def run(ctx):
     build.ensure("rel")
     ctx.extra["reference_self_test"] = {k: float(v) for k, v in rbd.self_test().items()}
-    cs = cases(ctx, ngen=ctx.pick(60, 800), npile=ctx.pick(30, 400), ncorpus=ctx.pick(16, 100), nstate=ctx.pick(2, 3), nconf=ctx.pick(4, 8))
+    cs = cases(ctx, ngen=ctx.pick(60, 500), npile=ctx.pick(30, 250), ncorpus=ctx.pick(16, 80), nstate=ctx.pick(2, 3), nconf=ctx.pick(4, 8))
     c11.run_batched(ctx, "vf.props.c09", cs)
     n = max(1, ctx.counters.get("cases", 0))
     if ctx.counters.get("engine_error_skipped", 0) > 0.1 * n:
         ctx.inconclusive("too many cases skipped on engine errors (%d of %d)" % (ctx.counters.get("engine_error_skipped", 0), n))
     if ctx.counters.get("skipped_not_converged", 0) > 0.2 * n:
         ctx.inconclusive("more than 20 %% of the cases did not converge (%d of %d)" % (ctx.counters.get("skipped_not_converged", 0), n))
+    nd = sum(ctx.counters.get("discrete_cases_" + k, 0) for k in ("EULER", "IMPLICIT", "IMPLICITFAST"))
+    if ctx.counters.get("skipped_discrete_perturbation_bound_exceeds_tolerance", 0) > nd:
+        ctx.inconclusive("more discrete-time cases skipped (perturbation bound above tolerance) than compared")
     for need in ("active_rows_equality", "active_rows_frictionloss_dof", "active_rows_frictionloss_tendon", "active_rows_limit_joint",
                  "active_rows_limit_tendon", "active_rows_frictionless", "active_rows_pyramidal", "active_rows_elliptic", "cases_with_xfrc",
                  "cases_with_actuation", "cases_with_elliptic_middle_zone", "discrete_cases_EULER", "discrete_cases_IMPLICIT",
